@@ -56,6 +56,11 @@ def check_one(s, res, fn, where):
         res.viol("map_number_survives", case={"smiles": s}, output=out, where=where)
         return
     got = oracle.frags_mol(m)
+    if got != want and oracle.loose_signature(m) == oracle.loose_signature(oracle.parse(s)) \
+            and oracle.comp(s) == oracle.comp_mol(m):
+        # same atoms, hydrogens, connectivity and charge: RDKit merely normalised one spelling differently
+        res.count("equal_up_to_rdkit_charge_separation")
+        return
     if got != want:
         wc, gc = oracle.comp(s), oracle.comp_mol(m)
         res.viol("molecule_changed_by_map_removal", case={"smiles": s}, output=out,
